@@ -14,11 +14,21 @@ def uf_apply(op, args):
         raise EngineError('opaque %s: %d arguments, %d declared' % (op.name, len(flat), len(op.arg_bits)))
     terms = [uterm(a, w) for a, w in zip(flat, op.arg_bits)]
     outs = op.out_bits if isinstance(op.out_bits, (tuple, list)) else (op.out_bits,)
+    inv = INVERSES.get(op.name)
+    if inv is not None:
+        # proved lemma  op(k.., inv(k.., x)) == x  applied as a rewrite: cancel syntactically when the data argument is inv(...)
+        ts = [z3.simplify(t) for t in terms]
+        d = ts[-1]
+        if z3.is_app(d) and d.decl().name() == inv + '#0' and d.num_args() == len(ts) and all(a.eq(b) for a, b in zip(ts[:-1], d.children()[:-1])):
+            return from_term(d.arg(len(ts) - 1))
+        terms = ts
     res = []
     for k, w in enumerate(outs):
         f = z3.Function('%s#%d' % (op.name, k), *([z3.BitVecSort(b) for b in op.arg_bits] + [z3.BitVecSort(w)]))
         res.append(from_term(f(*terms)))
     return tuple(res) if isinstance(op.out_bits, (tuple, list)) else res[0]
+
+INVERSES = {}      # opaque name -> name of the opaque function it inverts (set by axiom_inverse, per obligation)
 
 class SymCtx(BaseCtx):
     mode = 'sym'
@@ -60,12 +70,10 @@ class SymCtx(BaseCtx):
     def loop_contract(self, qualname, ordinal, handler):
         self.I.loop_contracts[(qualname, ordinal)] = handler
     def axiom_inverse(self, f, g, proved_by):
-        assert len(f.arg_bits) == 1 and len(g.arg_bits) == 1 and f.out_bits == g.arg_bits[0] and g.out_bits == f.arg_bits[0]
-        ff = z3.Function('%s#0' % f.name, z3.BitVecSort(f.arg_bits[0]), z3.BitVecSort(f.out_bits))
-        gg = z3.Function('%s#0' % g.name, z3.BitVecSort(g.arg_bits[0]), z3.BitVecSort(g.out_bits))
-        x = z3.BitVec('ax_x', f.arg_bits[0])
-        self.I.solver.add(z3.ForAll([x], gg(ff(x)) == x, patterns=[gg(ff(x))]))
-        self.I.used_contracts.add('axiom %s(%s(x))==x [%s]' % (g.name, f.name, proved_by))
+        """forall k..,x. g(k.., f(k.., x)) == x : the last argument is the data, the others are shared parameters"""
+        assert f.arg_bits == g.arg_bits and f.out_bits == f.arg_bits[-1] and g.out_bits == f.arg_bits[-1]
+        INVERSES[g.name] = f.name
+        self.I.used_contracts.add('axiom %s(%s(x))==x [proved by %s]' % (g.name, f.name, proved_by))
     def assume(self, cond):
         self.I.assume(cond)
     def ensure(self, label, cond, **info):
@@ -208,6 +216,7 @@ def _run_enum(ob, case, res):
 def _run_symbolic(ob, case, res, tmo, seed):
     contracts = CT.resolve(ob.use, ob.funcs)
     val.ACTIVE = set(ob.opaque)
+    INVERSES.clear()
     holder = []
     def run(I):
         c = SymCtx(I, case)
